@@ -125,6 +125,21 @@ func startWatchdog(onHang func(c *Case)) (stop func()) {
 	return func() { close(done) }
 }
 
+// currentTier is the tier of the worker ("quick" / "thorough"): generators
+// draw their rarer, larger shapes more often in the thorough tier.
+var currentTier string
+
+// rare reports true one time in n (one time in n/3, at least 2, when thorough).
+func rare(r *simrt.RNG, n int) bool {
+	if currentTier == "thorough" {
+		n = (n + 2) / 3
+		if n < 2 {
+			n = 2
+		}
+	}
+	return r.Intn(n) == 0
+}
+
 var registry = map[string]*Property{}
 
 func register(p *Property) { registry[p.ID] = p }
@@ -492,6 +507,7 @@ func RunWorker(t *testing.T, propID, tier string, seed uint64, worker, workers, 
 	if p == nil {
 		t.Fatalf("unknown property %q", propID)
 	}
+	currentTier = tier
 	start0 := time.Now()
 	st := &Stats{Prop: propID, Seed: seed, Worker: worker, Probes: map[string]int{}, FaultsFired: map[string]int{},
 		Strategies: map[string]int{}, Kinds: map[string]int{}}
